@@ -134,14 +134,20 @@ Definition verdict_valid (spec : bool) (model_agrees : bool) : N :=
 Definition obs_class (o : obs) : N :=
   match o with OErr _ _ _ _ c => c | _ => 98 end.
 
-(* agreement: the status AND the error site (which extractor, which check)
-   are the model's *)
+(* the harness could not tell the error site from the message (no property
+   speaks of wording: a reworded message must not break the check) *)
+Definition CLASS_UNKNOWN : N := 255.
+
+(* agreement: the status is the model's, and the error site (which extractor,
+   which check) is the model's WHEN the harness recognised one; a recognised
+   site that differs is a divergence *)
 Definition verdict_malformed {A} (o : obs) (m : res xerr A) : N :=
   match m with
   | Ok _ => V_MALFORMED          (* the generator produced a decodable input *)
   | Err e =>
       if spec_refused true o then
-        (if option_eqb N.eqb (obs_status o) (xerr_status e) && (obs_class o =? xerr_class e)
+        (if option_eqb N.eqb (obs_status o) (xerr_status e) &&
+            ((obs_class o =? CLASS_UNKNOWN) || (obs_class o =? xerr_class e))
          then V_AGREE else V_DIVERGE)
       else V_VIOLATION
   end.
